@@ -2,7 +2,8 @@
    Property theorems only; proofs live in Proofs/Center*.v and Proofs/Sex*.v.
    Tables of any size, any estimator function unless said otherwise; Q is exact arithmetic. *)
 From CNV Require Import Base.Prelude Base.Str Base.QNum Gen.CenterDefaults Model.Center Model.Sex
-  Spec.Center Proofs.CenterLib Proofs.Center Proofs.CenterGroups Proofs.CenterCall Proofs.SexLib Proofs.Sex.
+  Spec.Center Proofs.CenterLib Proofs.Center Proofs.CenterGroups Proofs.CenterCall Proofs.SexLib Proofs.Sex
+  Proofs.FnCnary Gen.FnCnaryFlat Gen.FnCnaryShift Gen.FnCnaryLow Gen.FnCnarySex.
 From CNV Require Model.Call Model.Descriptives Proofs.CenterDesc.
 Import Proofs.CenterDesc.
 Local Open Scope Q_scope.
@@ -234,6 +235,73 @@ Proof.
   - intros b w [<-|[<-|[<-|[<-|[]]]]]; simpl; intros H; injection H as <-; unfold Qle; simpl; lia.
 Qed.
 
+(* the same for every combination of reference sex and PAR build (or none): the levels are those of the bins the
+   code's filters select -- numerically named chromosomes and PAR1X / PAR2X at a, chrX outside them at a + x_offset,
+   a male sample's chrY outside PAR1Y / PAR2Y at a; PAR-Y bins are unconstrained *)
+Theorem C15_sex_idealised_build : forall (gstat : mtable -> Q) a female hap build t,
+  idealised_build a female hap build t ->
+  sex_decision gstat hap build t = Some (negb female) /\
+  guess_xx gstat hap build t = Some female /\
+  fst (do_sex_row gstat hap build t) = (if female then "Female" else "Male")%string.
+Proof. exact idealised_build_all. Qed.
+
+Theorem C15_sex_idealised_is_build : forall a female hap t,
+  idealised a female hap t -> idealised_build a female hap None t.
+Proof. exact idealised_is_build. Qed.
+
+(* satisfiable with a build: a female sample on a male reference, grch37: autosome and PAR1X at 0, chrX at +1, a
+   (null-coverage) PAR1Y bin and a noisy chrY bin anywhere *)
+Example C15_idealised_build_example :
+  exists p, resolve_build "grch37" = Some p /\
+  idealised_build 0 true true (Some p)
+    [mkBin "chr1" 0 10 "g" 0 None None; mkBin "chrX" 60000 60100 "g" 0 None None;
+     mkBin "chrX" 5000000 5000100 "g" 1 None None; mkBin "chrY" 20000 20100 "g" (-20) None None;
+     mkBin "chrY" 5000000 5000100 "g" (-7) None None].
+Proof.
+  eexists. split; [vm_compute; reflexivity|]. constructor.
+  - eexists. split; [left; reflexivity|reflexivity].
+  - eexists. split; [right; right; left; reflexivity|reflexivity].
+  - intros b [<-|[<-|[<-|[<-|[<-|[]]]]]]; vm_compute; intros H; try discriminate; reflexivity.
+  - intros b [<-|[<-|[<-|[<-|[<-|[]]]]]]; vm_compute; intros H; try discriminate; reflexivity.
+  - intros H; discriminate.
+  - intros b w [<-|[<-|[<-|[<-|[<-|[]]]]]]; simpl; intros H; discriminate.
+Qed.
+
+(* the `sex` report end to end (commands.do_sex, Model/Sex.v do_sex_table): one row per input table in the order
+   given, carrying the table's name; sex = "Male" exactly when compare_sex_chromosomes says so ("Female" also when
+   there is no decision); the two ratios are "NA" exactly when there is no decision (empty table / no chrX bin),
+   otherwise the (weighted, when there is a weight column with a non-zero entry) mean log2 of chrX minus that of the
+   autosomes, and the same for chrY -- NaN when chrY has no bin *)
+Theorem C15_do_sex_row : forall gstat hap build inputs i name t,
+  nth_error inputs i = Some (name, t) ->
+  exists label ratios,
+    nth_error (do_sex_table gstat hap build inputs) i = Some (name, (label, ratios)) /\
+    label = (match sex_decision gstat hap build t with Some true => "Male" | _ => "Female" end)%string /\
+    match compare_sex gstat hap build t with
+    | None => ratios = None
+    | Some (_, st) =>
+        ratios = Some (s_x_ratio st, s_y_ratio st) /\
+        let use := has_weight t in
+        let mean l := match segment_mean use l with Some m => m | None => 0 end in
+        s_x_ratio st = qsub (mean (filter (chr_x_filter t build) t)) (mean (autosomes t build)) /\
+        s_y_ratio st = match filter (chr_y_filter t build) t with
+                       | [] => None
+                       | chry => Some (qsub (mean chry) (mean (autosomes t build)))
+                       end
+    end.
+Proof. exact do_sex_table_row. Qed.
+
+Theorem C15_do_sex_rows : forall gstat hap build inputs,
+  length (do_sex_table gstat hap build inputs) = length inputs.
+Proof. exact do_sex_table_length. Qed.
+
+(* the columns, as named in the source, and the sign prefix of the printed ratios *)
+Theorem C15_do_sex_columns : do_sex_header = ["sample"; "sex"; "X_logratio"; "Y_logratio"]%string.
+Proof. exact do_sex_header_lit. Qed.
+
+Theorem C15_do_sex_sign : forall q, strsign_plus q = true <-> 0 < q.
+Proof. exact strsign_plus_spec. Qed.
+
 (* the decision arithmetic, for every outcome of the four median tests:
    one chromosome's ratio exceeds 1 exactly when the female-hypothesis statistic exceeds both the
    male-hypothesis statistic and the floor 0.01 (both tests succeeded) ... *)
@@ -265,3 +333,36 @@ Proof. exact decision_female. Qed.
 Theorem C15_mood_constant : forall gstat v s1 s2,
   const_list v s1 -> const_list v s2 -> mood_stat gstat s1 s2 = None.
 Proof. exact mood_stat_const. Qed.
+
+(* ============================================================================================== *)
+(* source ties (DESIGN 9.4): bodies translated from cnvlib/cnary.py on every run *)
+
+(* expect_flat_log2 per bin: -1 where the mask chosen by the reference sex holds, else np.zeros' 0 *)
+Theorem C15_source_flat : forall hap build t,
+  expect_flat hap build t =
+  map (fun b => fn_expect_flat 0 hap (chr_x_filter t build b) (chr_y_filter t build b) (chr_y_filter t None b)) t.
+Proof. exact fn_expect_flat_eq. Qed.
+
+(* shift_xx per bin: the if / elif on (is_xx, is_haploid_x_reference) with the masked -1.0 / +1.0, every other
+   column untouched (is_xx = None after a failed guess reads as false) *)
+Theorem C15_source_shift_xx : forall hap is_xx build t,
+  Forall2 (fun b b' => other_columns_same b b' /\
+                       b_log2 b' == fn_shift_xx_bin (xx_of is_xx) hap (chr_x_filter t build b) (b_log2 b))
+          t (shift_xx hap is_xx build t).
+Proof. exact fn_shift_xx_eq. Qed.
+
+(* drop_low_coverage's per-row test *)
+Theorem C15_source_low_coverage : forall b,
+  is_low b = fn_drop_idx (b_log2 b) (has_depth_of b) (depth_of b) null_log2_coverage min_ref_coverage.
+Proof. exact fn_is_low_eq. Qed.
+
+(* compare_chrom: ratio of the two median-test statistics over max(., 0.01), else of the median differences *)
+Theorem C15_source_compare_chrom : forall fs ms fd md,
+  lr_of fs ms fd md == fn_compare_chrom fs (some_of ms) (val_of ms) fd md.
+Proof. exact fn_compare_chrom_eq. Qed.
+
+(* the combined score (chrY factor when chrY has bins) and the decision `combined_score > 1.0` *)
+Theorem C15_source_sex_score : forall x_lr y_lr,
+  score_of x_lr y_lr == fst (fn_sex_score x_lr (val_of y_lr) (some_of y_lr)) /\
+  is_xy_of (score_of x_lr y_lr) = snd (fn_sex_score x_lr (val_of y_lr) (some_of y_lr)).
+Proof. exact fn_sex_score_eq. Qed.
